@@ -19,6 +19,7 @@ Values
   ('obj', path)              self / input / tokenizer and places rooted there
   ('unk', text)              not decidable statically; text is a canonical rendering
 """
+import re
 from .ast import is_log_block, decode_atom
 
 
@@ -1089,6 +1090,11 @@ class Run:
             if 0 <= n <= 0x10FFFF and not (0xD800 <= n <= 0xDFFF):
                 return ("ctor", "Some", (("ch", chr(n)),))
             return ("ctor", "None", ())
+        if last == "replace" and len(args) == 2 and showv(args[1]) in ("new()", "default()"):
+            # mem::replace(x, T::new() / Default::default()) is mem::take(x)
+            return ("unk", "take(%s)" % showv(args[0]))
+        if last in ("max", "min") and len(args) == 2 and p.split("::")[0] in ("cmp", "std", "core", last):
+            return self.min_max(last, args[0], args[1])
         if last in self.cfg.pure_fns:
             return ("unk", "%s(%s)" % (last, ",".join(showv(a) for a in args)))
         # place arguments are rendered as places
@@ -1205,6 +1211,15 @@ class Run:
             return self.apply_closure(c, args)
         return ("unk", "%s(%s)" % (showv(c), ",".join(showv(a) for a in args)))
 
+    def min_max(self, which, a, b):
+        """a.max(b) / a.min(b) as the comparison they stand for: the same guard as `if a < b { b } else { a }`"""
+        a, b = self.resolve(a), self.resolve(b)
+        if isinstance(a, int) and isinstance(b, int) and not isinstance(a, bool) and not isinstance(b, bool):
+            return max(a, b) if which == "max" else min(a, b)
+        if which == "max":
+            return b if self.truth(("unk", "(%s < %s)" % (showv(a), showv(b))), None) else a
+        return b if self.truth(("unk", "(%s < %s)" % (showv(b), showv(a))), None) else a
+
     def option_method(self, e, recv, args):
         """models of the Option / Result combinators: the same canonical pattern test as the `match` / `if let` spelling.
         -> value, or NotImplemented"""
@@ -1271,6 +1286,9 @@ class Run:
                 return recv[1] == "Some"
             if m == "is_none":
                 return recv[1] == "None"
+        if m in ("max", "min") and len(args) == 1 and (is_unk(recv) or isinstance(recv, int)) and not (isinstance(recv, tuple) and recv[0] == "closure") and self.family(e["recv"], recv) is None \
+                and not (e["recv"].get("k") == "MethodCall" and e["recv"]["m"] in ("iter", "into_iter", "map", "filter", "chars", "bytes", "rev", "cloned", "copied", "values", "keys")):
+            return self.min_max(m, recv, args[0])
         if m in OPTION_METHODS:
             r = self.option_method(e, recv, args)
             if r is not NotImplemented:
@@ -1452,6 +1470,31 @@ def _split_top_ne(lab):
     return (c[0], c[2]) if c and c[1] == "!=" else None
 
 
+_CONST_TEXT = re.compile(r"""^(?:'(?:\\.|[^'\\])+'|-?\d+|"(?:\\.|[^"\\])*"|atom:[^\s,(){}]*|[A-Z][A-Za-z0-9_]*)$""")
+
+
+def is_const_text(t):
+    """the rendering of a literal, an interned atom, a unit variant, or a constructor / struct literal of such"""
+    t = t.strip()
+    if _CONST_TEXT.match(t):
+        return True
+    m = re.match(r"^([A-Z][A-Za-z0-9_]*)([({])(.*)([)}])$", t, re.S)
+    if not m or (m.group(2), m.group(4)) not in (("(", ")"), ("{", "}")):
+        return False
+    from .machine import _split_top
+    parts = [x for x in _split_top(m.group(3), ",") if x.strip()]
+    if not parts:
+        return False
+    for x in parts:
+        if m.group(2) == "{":
+            if ":" not in x:
+                return False
+            x = x.split(":", 1)[1]
+        if not is_const_text(x):
+            return False
+    return True
+
+
 def canon_cond(lab):
     """-> (canonical label, negated): `!x`, `a != b`, `a > b`, `a >= b`, `a <= b`, `x == true/false` are spelled with `==` and `<` only"""
     neg = False
@@ -1471,6 +1514,12 @@ def canon_cond(lab):
             lab, neg = "(%s < %s)" % (a, b), not neg
         elif op == "<=":
             lab, neg = "(%s < %s)" % (b, a), not neg
+        elif op == "==" and (is_const_text(b) != is_const_text(a)) and not (b in ("true", "false") or a in ("true", "false")):
+            # comparing with a constant is the pattern test `x matches CONST` (`if c == 'a'` and `match c { 'a' => ..}` agree,
+            # and tests against different constants are known to exclude each other)
+            x, k = (a, b) if is_const_text(b) else (b, a)
+            lab = "%s matches %s" % (x, k)
+            break
         elif op == "==" and b in ("true", "false"):
             lab, neg = a, (neg if b == "true" else not neg)
             continue
